@@ -1675,4 +1675,672 @@ theorem withFlags_qcoherent' [Geo V N] {B : Type} (box : V × V × V → B)
   | none => rw [hq] at h2; cases h2
   | some cs => exact ⟨cs, cs, hq, by rw [← h1, hq], rfl⟩
 
+/-! ## no panic: `compute_topology` on a well-formed index buffer -/
+
+/-- every value stored in the half-edge map is the index of an existing half-edge -/
+def MapOk (st : TopoState) : Prop := ∀ x ∈ st.map, x.2 < st.hes.length
+
+theorem alookup_mem {α β} [BEq α] {k : α} {v : β} {l : List (α × β)} (h : alookup k l = some v) :
+    ∃ x ∈ l, x.2 = v := by
+  induction l with
+  | nil => simp [alookup] at h
+  | cons y r ih =>
+    obtain ⟨k', v'⟩ := y
+    rw [alookup_cons] at h
+    split at h
+    · cases h; exact ⟨(k', v), List.mem_cons_self, rfl⟩
+    · obtain ⟨x, hx, hxv⟩ := ih h
+      exact ⟨x, List.mem_cons_of_mem _ hx, hxv⟩
+
+theorem addHalfEdge_no_panic {st : TopoState} {fid base k v vnext nv : Nat}
+    (hm : MapOk st) (htv : st.tv.length = nv) (hl : st.hes.length = base + k) (hv : v < nv) :
+    (∃ e, addHalfEdge st fid base k v vnext = .err e) ∨
+    (∃ st', addHalfEdge st fid base k v vnext = .ok st' ∧ MapOk st' ∧ st'.tv.length = nv ∧ st'.hes.length = base + k + 1 ∧
+      st'.faces = st.faces) := by
+  unfold addHalfEdge
+  cases hlook : alookup (v, vnext) st.map with
+  | some existing =>
+    left
+    obtain ⟨x, hx, hxv⟩ := alookup_mem hlook
+    have hlt := hm x hx
+    have : existing < (st.hes ++ [({ next := base + (k + 1) % 3, twin := umax, vertex := v, face := fid } : HalfEdge)]).length := by
+      simp; omega
+    simp only [List.getElem?_eq_getElem this]
+    exact ⟨_, rfl⟩
+  | none =>
+    right
+    have hv' : v < st.tv.length := by omega
+    simp only [hv', if_true]
+    refine ⟨_, rfl, ?_, by simp [htv], by simp [hl], rfl⟩
+    intro x hx
+    simp only at hx
+    rcases List.mem_cons.mp hx with rfl | hx'
+    · simp; omega
+    · have := hm x hx'; simp; omega
+
+theorem topoFaces_no_panic (idx : List Tri) (fid nv : Nat) (st : TopoState)
+    (hb : ∀ t ∈ idx, t.a < nv ∧ t.b < nv ∧ t.c < nv) (hm : MapOk st) (htv : st.tv.length = nv) :
+    (∃ e, topoFaces idx fid st = .err e) ∨ (∃ st', topoFaces idx fid st = .ok st' ∧ MapOk st') := by
+  induction idx generalizing fid st with
+  | nil => right; exact ⟨st, rfl, hm⟩
+  | cons t ts ih =>
+    rw [topoFaces_cons]
+    obtain ⟨ha, hb', hc⟩ := hb t List.mem_cons_self
+    split
+    · left; exact ⟨_, rfl⟩
+    · rcases addHalfEdge_no_panic (fid := fid) (base := st.hes.length) (k := 0) (vnext := t.b) hm htv rfl ha with ⟨e, he⟩ | ⟨st1, h1, m1, t1, l1, f1⟩
+      · left; rw [he]; exact ⟨_, rfl⟩
+      · rw [h1]; simp only
+        rcases addHalfEdge_no_panic (fid := fid) (base := st.hes.length) (k := 1) (vnext := t.c) m1 t1 l1 hb' with ⟨e, he⟩ | ⟨st2, h2, m2, t2, l2, f2⟩
+        · left; rw [he]; exact ⟨_, rfl⟩
+        · rw [h2]; simp only
+          rcases addHalfEdge_no_panic (fid := fid) (base := st.hes.length) (k := 2) (vnext := t.a) m2 t2 l2 hc with ⟨e, he⟩ | ⟨st3, h3, m3, t3, l3, f3⟩
+          · left; rw [he]; exact ⟨_, rfl⟩
+          · rw [h3]; simp only
+            apply ih
+            · intro t' ht'; exact hb t' (List.mem_cons_of_mem _ ht')
+            · intro x hx; exact m3 x hx
+            · exact t3
+
+theorem setTwin_some {hes : List HalfEdge} {i t : Nat} (h : i < hes.length) :
+    ∃ hes', setTwin hes i t = some hes' ∧ hes'.length = hes.length := by
+  unfold setTwin
+  simp only [List.getElem?_eq_getElem h]
+  exact ⟨_, rfl, by simp⟩
+
+theorem topoTwins_no_panic (map l : List ((Nat × Nat) × Nat)) (hes : List HalfEdge)
+    (hm : ∀ x ∈ map, x.2 < hes.length) (hl : ∀ x ∈ l, x.2 < hes.length) :
+    ∃ hes', topoTwins map l hes = some hes' := by
+  induction l generalizing hes with
+  | nil => exact ⟨hes, rfl⟩
+  | cons x r ih =>
+    obtain ⟨⟨k0, k1⟩, he1⟩ := x
+    have h1 : he1 < hes.length := hl _ List.mem_cons_self
+    unfold topoTwins
+    split
+    · cases hlook : alookup (k1, k0) map with
+      | none =>
+        simp only
+        exact ih hes hm (fun y hy => hl y (List.mem_cons_of_mem _ hy))
+      | some he2 =>
+        simp only
+        obtain ⟨x, hx, hxv⟩ := alookup_mem hlook
+        have h2 : he2 < hes.length := by have := hm x hx; omega
+        obtain ⟨hes1, e1, l1⟩ := setTwin_some (t := he2) h1
+        obtain ⟨hes2, e2, l2⟩ := setTwin_some (hes := hes1) (i := he2) (t := he1) (by omega)
+        rw [e1]; simp only; rw [e2]; simp only
+        apply ih
+        · intro y hy; have := hm y hy; omega
+        · intro y hy; have := hl y (List.mem_cons_of_mem _ hy); omega
+    · exact ih hes hm (fun y hy => hl y (List.mem_cons_of_mem _ hy))
+
+/-- `compute_topology` never panics on a well-formed index buffer -/
+theorem computeTopology_no_panic {nv : Nat} {idx : List Tri} (hb : inBounds nv idx = true) :
+    computeTopology nv idx ≠ .panic := by
+  unfold computeTopology
+  rcases topoFaces_no_panic idx 0 nv { tv := List.replicate nv umax, faces := [], hes := [], map := [] }
+      (inBounds_mem hb) (by intro x hx; cases hx) (by simp) with ⟨e, he⟩ | ⟨st, hst, hm⟩
+  · rw [he]; simp
+  · rw [hst]; simp only
+    obtain ⟨hes', h'⟩ := topoTwins_no_panic st.map st.map.reverse st.hes hm
+      (fun x hx => hm x (List.mem_reverse.mp hx))
+    rw [h']; simp
+
+/-! ## `compute_connected_components`: no panic, and what the colour / range passes compute -/
+
+theorem colorLoop_cons (labels : List Nat) (t : Tri) (ts : List Tri) (vtr ranges colors : List Nat) :
+    colorLoop labels (t :: ts) vtr ranges colors =
+      match labels[t.a]? with
+      | none => none
+      | some g =>
+        match vtr[g]? with
+        | none => none
+        | some r0 =>
+          match (if r0 = umax then (vtr.set g ranges.length, ranges ++ [0]) else (vtr, ranges)) with
+          | (vtr, ranges) =>
+          match vtr[g]? with
+          | none => none
+          | some rid =>
+            if rid < ranges.length then
+              colorLoop labels ts vtr (ranges.modify rid (· + 1)) (colors ++ [rid - 1])
+            else none := by
+  rw [colorLoop]
+  rfl
+
+/-- invariant of the colouring pass -/
+structure ColorInv (vtr ranges colors : List Nat) : Prop where
+  pos : 1 ≤ ranges.length
+  vtrOk : ∀ (g r : Nat), vtr[g]? = some r → r = umax ∨ (1 ≤ r ∧ r < ranges.length)
+  colOk : ∀ c ∈ colors, c + 1 < ranges.length
+  cnt : ∀ j : Nat, j + 1 < ranges.length → ranges[j + 1]? = some (colors.count j)
+
+theorem colorLoop_spec (labels : List Nat) (idx : List Tri) (vtr ranges colors : List Nat)
+    (hl : ∀ t ∈ idx, ∃ g, labels[t.a]? = some g ∧ g < vtr.length)
+    (hi : ColorInv vtr ranges colors) :
+    ∃ ranges' colors' vtr', colorLoop labels idx vtr ranges colors = some (ranges', colors') ∧
+      ColorInv vtr' ranges' colors' ∧ colors'.length = colors.length + idx.length ∧ ranges'[0]? = ranges[0]? := by
+  induction idx generalizing vtr ranges colors with
+  | nil => exact ⟨ranges, colors, vtr, rfl, hi, rfl, rfl⟩
+  | cons t ts ih =>
+    obtain ⟨g, hg, hgl⟩ := hl t List.mem_cons_self
+    have hl' : ∀ vtr' : List Nat, vtr'.length = vtr.length → ∀ t' ∈ ts, ∃ g, labels[t'.a]? = some g ∧ g < vtr'.length := by
+      intro vtr' hlen t' ht'
+      obtain ⟨g', h1, h2⟩ := hl t' (List.mem_cons_of_mem _ ht')
+      exact ⟨g', h1, by omega⟩
+    rw [colorLoop_cons]
+    simp only [hg, List.getElem?_eq_getElem hgl]
+    by_cases h0 : vtr[g] = umax
+    · -- a new colour
+      simp only [h0, if_true, List.getElem?_set, hgl, if_true]
+      have hlt : ranges.length < (ranges ++ [0]).length := by simp
+      simp only [hlt, if_true]
+      have hinv : ColorInv (vtr.set g ranges.length) ((ranges ++ [0]).modify ranges.length (· + 1)) (colors ++ [ranges.length - 1]) := by
+        constructor
+        · simp
+        · intro g' r hr
+          rw [List.getElem?_set] at hr
+          simp only [List.length_modify, List.length_append, List.length_singleton]
+          by_cases hgg : g = g'
+          · rw [if_pos hgg, if_pos hgl] at hr
+            cases hr; right; exact ⟨hi.pos, by omega⟩
+          · rw [if_neg hgg] at hr
+            rcases hi.vtrOk g' r hr with h | h
+            · left; exact h
+            · right; omega
+        · intro c hc
+          simp only [List.length_modify, List.length_append, List.length_singleton]
+          rcases List.mem_append.mp hc with h | h
+          · have := hi.colOk c h; omega
+          · simp only [List.mem_singleton] at h; have := hi.pos; omega
+        · intro j hj
+          simp only [List.length_modify, List.length_append, List.length_singleton] at hj
+          simp only [List.getElem?_modify, List.count_append, List.count_singleton]
+          by_cases hj' : j + 1 < ranges.length
+          · have hne : ¬ ranges.length = j + 1 := by omega
+            have hne2 : ¬ (ranges.length - 1 == j) = true := by simp; omega
+            simp only [hne, if_false, hne2, Nat.add_zero]
+            rw [List.getElem?_append_left hj', hi.cnt j hj']
+            simp
+          · have heq : ranges.length = j + 1 := by omega
+            have hz : colors.count j = 0 := by
+              apply List.count_eq_zero.mpr
+              intro hmem
+              have := hi.colOk j hmem; omega
+            have hb : (ranges.length - 1 == j) = true := by simp; omega
+            simp only [heq, if_true, hz, Nat.zero_add]
+            rw [← heq, List.getElem?_append_right (Nat.le_refl _)]
+            simp [hb]
+      obtain ⟨r', c', v', e1, e2, e3, e4⟩ := ih _ _ _ (hl' _ (by simp)) hinv
+      refine ⟨r', c', v', e1, e2, by rw [e3]; simp; omega, ?_⟩
+      rw [e4, List.getElem?_modify]
+      have : ¬ ranges.length = 0 := by have := hi.pos; omega
+      simp only [this, if_false]
+      rw [List.getElem?_append_left (by have := hi.pos; omega)]
+      cases ranges[0]? <;> rfl
+    · -- an existing colour
+      simp only [h0, if_false, List.getElem?_eq_getElem hgl]
+      have hr0 : 1 ≤ vtr[g] ∧ vtr[g] < ranges.length := by
+        rcases hi.vtrOk g vtr[g] (List.getElem?_eq_getElem hgl) with h | h
+        · exact absurd h h0
+        · exact h
+      simp only [hr0.2, if_true]
+      have hinv : ColorInv vtr (ranges.modify vtr[g] (· + 1)) (colors ++ [vtr[g] - 1]) := by
+        constructor
+        · simp; exact hi.pos
+        · intro g' r hr
+          simp only [List.length_modify]
+          exact hi.vtrOk g' r hr
+        · intro c hc
+          simp only [List.length_modify]
+          rcases List.mem_append.mp hc with h | h
+          · exact hi.colOk c h
+          · simp only [List.mem_singleton] at h; omega
+        · intro j hj
+          simp only [List.length_modify] at hj
+          simp only [List.getElem?_modify, List.count_append, List.count_singleton, hi.cnt j hj, Option.map_eq_map, Option.map_some]
+          by_cases hjj : vtr[g] = j + 1
+          · have : (vtr[g] - 1 == j) = true := by simp; omega
+            simp [hjj, this]
+          · have : ¬ (vtr[g] - 1 == j) = true := by simp; omega
+            simp [hjj, this]
+      obtain ⟨r', c', v', e1, e2, e3, e4⟩ := ih _ _ _ (hl' _ rfl) hinv
+      refine ⟨r', c', v', e1, e2, by rw [e3]; simp; omega, ?_⟩
+      rw [e4, List.getElem?_modify]
+      have : ¬ vtr[g] = 0 := by omega
+      simp only [this, if_false]
+      cases ranges[0]? <;> rfl
+
+/-- number of faces whose colour is `< j` -/
+def below (colors : List Nat) (j : Nat) : Nat := (colors.filter (fun c => decide (c < j))).length
+
+theorem below_succ (colors : List Nat) (j : Nat) : below colors (j + 1) = below colors j + colors.count j := by
+  unfold below
+  induction colors with
+  | nil => rfl
+  | cons c cs ih =>
+    simp only [List.filter_cons, List.count_cons]
+    by_cases h1 : c < j
+    · have h2 : c < j + 1 := by omega
+      have h3 : (c == j) = false := by simp; omega
+      simp only [h1, h2, decide_true, if_true, List.length_cons, h3, Bool.false_eq_true, if_false]
+      omega
+    · by_cases h2 : c = j
+      · subst h2
+        simp only [h1, decide_false, Bool.false_eq_true, if_false, Nat.lt_add_one, decide_true, if_true, List.length_cons,
+          beq_self_eq_true]
+        omega
+      · have h3 : ¬ c < j + 1 := by omega
+        have h4 : (c == j) = false := by simp; omega
+        simp only [h1, h3, decide_false, Bool.false_eq_true, if_false, h4]
+        omega
+
+theorem below_le (colors : List Nat) (j : Nat) : below colors j ≤ colors.length :=
+  List.length_filter_le _ _
+
+theorem below_zero (colors : List Nat) : below colors 0 = 0 := by
+  unfold below
+  induction colors with
+  | nil => rfl
+  | cons c cs ih => simp
+
+theorem cumsumFrom_getElem? (prev : Nat) (xs : List Nat) (i : Nat) (hi : i < xs.length) :
+    (cumsumFrom prev xs)[i]? = some (prev + (xs.take (i + 1)).sum) := by
+  induction xs generalizing prev i with
+  | nil => simp at hi
+  | cons x xs ih =>
+    rw [cumsumFrom]
+    cases i with
+    | zero => simp; omega
+    | succ i =>
+      simp only [List.length_cons, Nat.add_lt_add_iff_right] at hi
+      simp only [List.getElem?_cons_succ, ih _ _ hi, List.take_succ_cons, List.sum_cons]
+      congr 1; omega
+
+theorem cumsumFrom_length (prev : Nat) (xs : List Nat) : (cumsumFrom prev xs).length = xs.length := by
+  induction xs generalizing prev with
+  | nil => rfl
+  | cons x xs ih => rw [cumsumFrom]; simp [ih]
+
+theorem cumsum_length (xs : List Nat) : (cumsum xs).length = xs.length := by
+  cases xs with
+  | nil => rfl
+  | cons x xs => rw [cumsum]; simp [cumsumFrom_length]
+
+theorem cumsum_getElem? (xs : List Nat) (i : Nat) (hi : i < xs.length) :
+    (cumsum xs)[i]? = some ((xs.take (i + 1)).sum) := by
+  cases xs with
+  | nil => simp at hi
+  | cons x xs =>
+    rw [cumsum]
+    cases i with
+    | zero => simp
+    | succ i =>
+      simp only [List.length_cons, Nat.add_lt_add_iff_right] at hi
+      simp only [List.getElem?_cons_succ, cumsumFrom_getElem? _ _ _ hi, List.take_succ_cons, List.sum_cons]
+
+/-- prefix sums of the per-colour counts are the `below` counts -/
+theorem take_sum_eq_below (ranges colors : List Nat) (h0 : ranges[0]? = some 0)
+    (hc : ∀ j : Nat, j + 1 < ranges.length → ranges[j + 1]? = some (colors.count j)) (j : Nat) (hj : j < ranges.length) :
+    (ranges.take (j + 1)).sum = below colors j := by
+  induction j with
+  | zero =>
+    rw [List.take_add_one, h0]
+    simp [below_zero]
+  | succ j ih =>
+    rw [List.take_add_one, hc j hj, List.sum_append, ih (by omega), below_succ]
+    simp
+
+theorem groupLoop_cons (c : Nat) (cs : List Nat) (fid : Nat) (ins grouped : List Nat) :
+    groupLoop (c :: cs) fid ins grouped =
+      match ins[c]? with
+      | none => none
+      | some i =>
+        if i < grouped.length then groupLoop cs (fid + 1) (ins.modify c (· + 1)) (grouped.set i fid)
+        else none := by
+  rw [groupLoop]
+  rfl
+
+/-- the grouping pass never writes out of bounds: the insertion index of colour `c` plus the number of faces of
+colour `c` still to come is the end of the range of `c` -/
+theorem groupLoop_spec (all rem : List Nat) (fid : Nat) (ins grouped : List Nat) (k : Nat)
+    (hcol : ∀ c ∈ rem, c < k)
+    (hins : ∀ c : Nat, c < k → ∃ i, ins[c]? = some i ∧ i + rem.count c = below all (c + 1))
+    (hlen : all.length = grouped.length) :
+    ∃ g, groupLoop rem fid ins grouped = some g ∧ g.length = grouped.length := by
+  induction rem generalizing fid ins grouped with
+  | nil => exact ⟨grouped, rfl, rfl⟩
+  | cons c cs ih =>
+    rw [groupLoop_cons]
+    have hck := hcol c List.mem_cons_self
+    obtain ⟨i, hi, hsum⟩ := hins c hck
+    simp only [hi]
+    have hb := below_le all (c + 1)
+    have hcnt : (c :: cs).count c = cs.count c + 1 := by simp
+    have hlt : i < grouped.length := by omega
+    simp only [hlt, if_true]
+    obtain ⟨g, hg, hgl⟩ := ih (fid + 1) (ins.modify c (· + 1)) (grouped.set i fid)
+      (fun c' hc' => hcol c' (List.mem_cons_of_mem _ hc'))
+      (by
+        intro c' hc'
+        obtain ⟨i', hi', hsum'⟩ := hins c' hc'
+        rw [List.getElem?_modify, hi']
+        by_cases hcc : c = c'
+        · subst hcc
+          refine ⟨i' + 1, by simp, ?_⟩
+          rw [hi] at hi'; cases hi'
+          omega
+        · refine ⟨i', by simp [hcc], ?_⟩
+          have : (c :: cs).count c' = cs.count c' := by
+            rw [List.count_cons]; simp [hcc]
+          omega)
+      (by simp [hlen])
+    exact ⟨g, hg, by rw [hgl]; simp⟩
+
+theorem unite3_lt (l : List Nat) (t : Tri) (nv : Nat) (h : ∀ x ∈ l, x < nv) (ha : t.a < l.length) :
+    ∀ x ∈ unite3 l t, x < nv := by
+  intro x hx
+  unfold unite3 at hx
+  simp only [List.mem_map] at hx
+  obtain ⟨y, hy, rfl⟩ := hx
+  split
+  · have hla : l.getD t.a umax = l[t.a] := by simp [List.getD_eq_getElem?_getD, List.getElem?_eq_getElem ha]
+    have : l[t.a] < nv := h _ (List.getElem_mem ha)
+    have hm : min3 (l.getD t.a umax) (l.getD t.b umax) (l.getD t.c umax) ≤ l.getD t.a umax := by
+      unfold min3; exact Nat.le_trans (Nat.min_le_left _ _) (Nat.min_le_left _ _)
+    omega
+  · exact h y hy
+
+theorem ccLabels_lt (nv : Nat) (idx : List Tri) (hb : ∀ t ∈ idx, t.a < nv) :
+    ∀ x ∈ ccLabels nv idx, x < nv := by
+  unfold ccLabels
+  have key : ∀ (l : List Nat), l.length = nv → (∀ x ∈ l, x < nv) → ∀ x ∈ idx.foldl unite3 l, x < nv := by
+    induction idx with
+    | nil => intro l _ h; exact h
+    | cons t ts ih =>
+      intro l hl h
+      simp only [List.foldl_cons]
+      apply ih (fun t' ht' => hb t' (List.mem_cons_of_mem _ ht')) _ (by rw [unite3_length]; exact hl)
+      exact unite3_lt l t nv h (by rw [hl]; exact hb t List.mem_cons_self)
+  apply key _ (by simp)
+  intro x hx
+  simpa using hx
+
+/-- **`compute_connected_components` never panics on a well-formed index buffer**, and: one colour per face, colours
+smaller than the number of ranges minus one, `ranges[j]` = number of faces of colour `< j` (so `ranges` are the
+boundaries of the groups), `grouped_faces` as long as the index buffer -/
+theorem computeCC_some {nv : Nat} {idx : List Tri} (hb : inBounds nv idx = true) :
+    ∃ cc, computeCC nv idx = some cc ∧ cc.faceColors.length = idx.length ∧ cc.groupedFaces.length = idx.length ∧
+      (∀ c ∈ cc.faceColors, c + 1 < cc.ranges.length) ∧
+      (∀ j : Nat, j < cc.ranges.length → cc.ranges[j]? = some (below cc.faceColors j)) := by
+  unfold computeCC
+  simp only [hb, Bool.not_true, Bool.false_eq_true, if_false]
+  have hmem := inBounds_mem hb
+  have hlab : (ccLabels nv idx).length = nv := by
+    unfold ccLabels; rw [foldl_unite3_length]; simp
+  have hlt := ccLabels_lt nv idx (fun t ht => (hmem t ht).1)
+  obtain ⟨ranges, colors, vtr', e1, inv, elen, e0⟩ := colorLoop_spec (ccLabels nv idx) idx (List.replicate nv umax) [0] []
+    (by
+      intro t ht
+      have ha := (hmem t ht).1
+      have : t.a < (ccLabels nv idx).length := by rw [hlab]; exact ha
+      refine ⟨(ccLabels nv idx)[t.a], List.getElem?_eq_getElem this, ?_⟩
+      simp only [List.length_replicate]
+      exact hlt _ (List.getElem_mem this))
+    (by
+      constructor
+      · simp
+      · intro g r hr
+        rw [List.getElem?_replicate] at hr
+        split at hr
+        · cases hr; left; rfl
+        · cases hr
+      · intro c hc; cases hc
+      · intro j hj; simp at hj)
+  rw [e1]
+  simp only
+  simp only [List.length_nil, Nat.zero_add] at elen
+  have h0 : ranges[0]? = some 0 := by rw [e0]; rfl
+  have hR : ∀ j : Nat, j < ranges.length → (cumsum ranges)[j]? = some (below colors j) := by
+    intro j hj
+    rw [cumsum_getElem? _ _ hj, take_sum_eq_below ranges colors h0 inv.cnt j hj]
+  obtain ⟨g, hg, hgl⟩ := groupLoop_spec colors colors 0 (cumsum ranges) (List.replicate idx.length umax) (ranges.length - 1)
+    (by intro c hc; have := inv.colOk c hc; omega)
+    (by
+      intro c hc
+      refine ⟨below colors c, hR c (by omega), ?_⟩
+      rw [below_succ])
+    (by simp [elen])
+  rw [hg]
+  refine ⟨_, rfl, elen, by rw [hgl]; simp, ?_, ?_⟩
+  · intro c hc; rw [cumsum_length]; exact inv.colOk c hc
+  · intro j hj; rw [cumsum_length] at hj; exact hR j hj
+
+/-! ## no operation on a well-formed mesh panics -/
+
+/-- every index of the index buffer designates a vertex (what `rebuild_qbvh` establishes) -/
+def WF (s : Mesh V N) : Prop := inBounds s.vertices.length s.indices = true
+
+theorem triCoords_isSome_iff (vs : List V) (t : Tri) :
+    (triCoords vs t).isSome = true ↔ t.a < vs.length ∧ t.b < vs.length ∧ t.c < vs.length := by
+  unfold triCoords
+  constructor
+  · intro h
+    cases ha : vs[t.a]? <;> cases hb : vs[t.b]? <;> cases hc : vs[t.c]? <;> simp [ha, hb, hc] at h
+    have h1 := (List.getElem?_eq_some_iff.mp ha).1
+    have h2 := (List.getElem?_eq_some_iff.mp hb).1
+    have h3 := (List.getElem?_eq_some_iff.mp hc).1
+    exact ⟨h1, h2, h3⟩
+  · intro ⟨h1, h2, h3⟩
+    simp [List.getElem?_eq_getElem h1, List.getElem?_eq_getElem h2, List.getElem?_eq_getElem h3]
+
+theorem allCoords_isSome_iff (vs : List V) (idx : List Tri) :
+    (allCoords vs idx).isSome = true ↔ inBounds vs.length idx = true := by
+  induction idx with
+  | nil => simp [allCoords, inBounds]
+  | cons t ts ih =>
+    rw [allCoords_cons]
+    have h1 := triCoords_isSome_iff vs t
+    unfold inBounds at ih ⊢
+    simp only [List.all_cons, Bool.and_eq_true, decide_eq_true_eq]
+    cases hc : triCoords vs t with
+    | none =>
+      rw [hc] at h1
+      simp only [Option.isSome_none, Bool.false_eq_true, false_iff] at h1
+      simp only [Option.isSome_none, Bool.false_eq_true, false_iff]
+      intro h; apply h1; exact ⟨h.1.1.1, h.1.1.2, h.1.2⟩
+    | some c =>
+      rw [hc] at h1
+      simp only [Option.isSome_some, true_iff] at h1
+      cases ha : allCoords vs ts with
+      | none =>
+        rw [ha] at ih
+        simp only [Option.isSome_none, Bool.false_eq_true, false_iff]
+        intro h; exact absurd (ih.mpr h.2) (by simp)
+      | some cs =>
+        rw [ha] at ih
+        simp only [Option.isSome_some, true_iff] at ih
+        simp only [Option.isSome_some, true_iff]
+        exact ⟨⟨⟨h1.1, h1.2.1⟩, h1.2.2⟩, ih⟩
+
+theorem inBounds_sublist {nv : Nat} {l1 l2 : List Tri} (h : l1.Sublist l2) (hb : inBounds nv l2 = true) : inBounds nv l1 = true := by
+  unfold inBounds at hb ⊢
+  rw [List.all_eq_true] at hb ⊢
+  intro t ht
+  exact hb t (h.subset ht)
+
+theorem computePN_some [Geo V N] {vs : List V} {idx : List Tri} (hb : inBounds vs.length idx = true) :
+    ∃ p, (computePN vs idx : Option (PN N)) = some p := by
+  unfold computePN
+  have := (allCoords_isSome_iff vs idx).mpr hb
+  cases h : allCoords vs idx with
+  | none => rw [h] at this; cases this
+  | some cs => exact ⟨_, rfl⟩
+
+theorem rebuildQbvh_some {s : Mesh V N} (h : WF s) : ∃ s', rebuildQbvh s = some s' := by
+  unfold rebuildQbvh
+  have := (allCoords_isSome_iff s.vertices s.indices).mpr h
+  cases h : allCoords s.vertices s.indices with
+  | none => rw [h] at this; cases this
+  | some cs => exact ⟨_, rfl⟩
+
+theorem wf_of_same {s t : Mesh V N} (h : WF s) (hs : SameData s t) : WF t := by
+  unfold WF at h ⊢; rw [hs.1, hs.2.1]; exact h
+
+theorem mergeStage_no_panic [Geo V N] {s : Mesh V N} (f d : Flags) (h : WF s) :
+    ∃ s1 d1, mergeStage s f d = some (s1, d1) ∧ WF s1 := by
+  unfold mergeStage
+  split
+  · unfold mergeStep
+    have := (allCoords_isSome_iff s.vertices s.indices).mpr h
+    unfold mergeBuffers
+    cases hc : allCoords s.vertices s.indices with
+    | none => rw [hc] at this; cases this
+    | some cs =>
+      simp only [Option.map_some]
+      refine ⟨_, _, rfl, ?_⟩
+      -- well-formedness of the merged buffers
+      obtain ⟨added, e1, _, _, e4, _⟩ := mergeLoop_spec (N := N) (B := Unit) (fun _ => ()) ⟨by intros; rfl, by intros; rfl, by intros; rfl, by intros; rfl⟩
+        f.delDegen f.delDup cs [] [] []
+      simp only [List.nil_append] at e1
+      unfold WF
+      simp only
+      rw [← allCoords_isSome_iff, e1]
+      exact allCoords_of_all e4
+  · exact ⟨s, d, rfl, h⟩
+
+theorem topoStage_no_panic {s : Mesh V N} (f d : Flags) (h : WF s) :
+    ∃ s1 r d1, topoStage s f d = some (s1, r, d1) ∧ WF s1 := by
+  unfold topoStage
+  split
+  · unfold topoStep topoStepW
+    cases hdel : f.delBad
+    · simp only [Bool.false_eq_true, if_false]
+      have hnp := computeTopology_no_panic h
+      cases hct : computeTopology s.vertices.length s.indices with
+      | panic => exact absurd hct hnp
+      | err e => exact ⟨_, _, _, rfl, h⟩
+      | ok t => exact ⟨_, _, _, rfl, h⟩
+    · simp only [if_true]
+      have hwf : inBounds s.vertices.length (deleteBad s.indices) = true :=
+        inBounds_sublist (deleteBadLoop_sublist _ _) h
+      have hnp := computeTopology_no_panic hwf
+      cases hct : computeTopology s.vertices.length (deleteBad s.indices) with
+      | panic => exact absurd hct hnp
+      | err e => exact ⟨_, _, _, rfl, hwf⟩
+      | ok t => exact ⟨_, _, _, rfl, hwf⟩
+  · exact ⟨s, none, d, rfl, h⟩
+
+theorem ccStage_no_panic {s : Mesh V N} (d : Flags) (h : WF s) : ∃ s1, ccStage s d = some s1 ∧ WF s1 := by
+  unfold ccStage
+  split
+  · unfold ccStep
+    obtain ⟨cc, hcc, _⟩ := computeCC_some h
+    rw [hcc]
+    exact ⟨_, rfl, h⟩
+  · exact ⟨s, rfl, h⟩
+
+theorem pnStage_no_panic [Geo V N] {s : Mesh V N} (dim3 : Bool) (d : Flags) (h : WF s) :
+    ∃ s1, pnStage dim3 s d = some s1 ∧ WF s1 := by
+  unfold pnStage
+  split
+  · unfold pnStep
+    obtain ⟨p, hp⟩ := computePN_some (N := N) h
+    rw [hp]
+    exact ⟨_, rfl, h⟩
+  · exact ⟨s, rfl, h⟩
+
+theorem qbvhStage_no_panic {s : Mesh V N} (n : Nat) (h : WF s) : ∃ s1, qbvhStage n s = some s1 ∧ WF s1 := by
+  unfold qbvhStage
+  split
+  · obtain ⟨s', hs'⟩ := rebuildQbvh_some h
+    exact ⟨s', hs', wf_of_same h (rebuildQbvh_spec hs').1⟩
+  · exact ⟨s, rfl, h⟩
+
+/-- `set_flags` never panics on a well-formed mesh, and leaves it well formed -/
+theorem setFlags_no_panic' [Geo V N] (dim3 : Bool) {s : Mesh V N} (f : Flags) (h : WF s) :
+    ∃ s' r, setFlags dim3 s f = some (s', r) ∧ WF s' := by
+  unfold setFlags
+  have h0 : WF (dropStage dim3 s f) := by unfold WF; simp only [dropStage_vertices, dropStage_indices]; exact h
+  obtain ⟨s1, d1, e1, w1⟩ := mergeStage_no_panic f (f.diff s.flags) h0
+  obtain ⟨s2, r2, d2, e2, w2⟩ := topoStage_no_panic f d1 w1
+  obtain ⟨s3, e3, w3⟩ := ccStage_no_panic d2 w2
+  obtain ⟨s4, e4, w4⟩ := pnStage_no_panic dim3 d2 w3
+  obtain ⟨s5, e5, w5⟩ := qbvhStage_no_panic s.indices.length w4
+  simp only [e1, e2, e3, e4, e5, Option.bind_some]
+  exact ⟨_, _, rfl, w5⟩
+
+theorem retopo_no_panic {s : Mesh V N} (h : WF s) : ∃ s', retopo s = some s' ∧ WF s' := by
+  unfold retopo
+  split
+  · unfold topoStep topoStepW
+    simp only [Bool.false_eq_true, if_false]
+    have hnp := computeTopology_no_panic h
+    cases hct : computeTopology s.vertices.length s.indices with
+    | panic => exact absurd hct hnp
+    | err e => exact ⟨_, rfl, h⟩
+    | ok t => exact ⟨_, rfl, h⟩
+  · exact ⟨s, rfl, h⟩
+
+/-- `reverse` never panics on a well-formed mesh, and leaves it well formed -/
+theorem reverse_no_panic' [Geo V N] (dim3 : Bool) {s : Mesh V N} (h : WF s) : ∃ s', reverse dim3 s = some s' ∧ WF s' := by
+  unfold reverse
+  apply retopo_no_panic
+  unfold WF
+  cases dim3 <;> simp only [Bool.false_eq_true, if_false, if_true, inBounds_rev] <;> exact h
+
+theorem ensureQbvh_no_panic {s : Mesh V N} (h : WF s) : ∃ s', ensureQbvh s = some s' ∧ WF s' := by
+  unfold ensureQbvh
+  split
+  · obtain ⟨s', hs'⟩ := rebuildQbvh_some h
+    exact ⟨s', hs', wf_of_same h (rebuildQbvh_spec hs').1⟩
+  · exact ⟨s, rfl, h⟩
+
+/-- `with_flags` on in-bounds buffers: `EmptyIndices` or a well-formed mesh, never a panic -/
+theorem withFlags_no_panic' [Geo V N] (dim3 : Bool) (vs : List V) (idx : List Tri) (f : Flags)
+    (h : inBounds vs.length idx = true) :
+    (idx = [] ∧ (withFlags dim3 vs idx f : Built V N) = .emptyIndices) ∨
+    (idx ≠ [] ∧ ∃ s : Mesh V N, withFlags dim3 vs idx f = .ok s ∧ WF s) := by
+  unfold withFlags
+  cases idx with
+  | nil => left; exact ⟨rfl, rfl⟩
+  | cons t ts =>
+    right
+    refine ⟨by simp, ?_⟩
+    simp only [List.isEmpty_cons, Bool.false_eq_true, if_false]
+    unfold buildCore
+    obtain ⟨s1, r, e1, w1⟩ := setFlags_no_panic' (N := N) dim3 f (s := blank vs (t :: ts)) h
+    obtain ⟨s2, e2, w2⟩ := ensureQbvh_no_panic w1
+    rw [e1]; simp only; rw [e2]
+    exact ⟨s2, rfl, w2⟩
+
+/-- a mesh returned by `with_flags` is well formed (whatever the input buffers) -/
+theorem withFlags_wf' [Geo V N] {dim3 : Bool} {vs : List V} {idx : List Tri} {f : Flags} {s : Mesh V N}
+    (h : withFlags dim3 vs idx f = .ok s) : WF s := by
+  obtain ⟨h1, h2⟩ := withFlags_qbvh h
+  unfold WF
+  rw [← allCoords_isSome_iff, ← h1]; exact h2
+
+theorem appendBuffers_wf {s rhs : Mesh V N} (h1 : WF s) (h2 : WF rhs) :
+    inBounds (appendBuffers s rhs).1.length (appendBuffers s rhs).2 = true := by
+  unfold appendBuffers WF inBounds at *
+  simp only [List.length_append, List.all_append, List.all_map, Bool.and_eq_true, List.all_eq_true, decide_eq_true_eq] at *
+  constructor
+  · intro t ht; have := h1 t ht; omega
+  · intro t ht; have := h2 t ht
+    simp only [Function.comp, Bool.and_eq_true, decide_eq_true_eq]; omega
+
+/-- `append` on well-formed meshes panics exactly when both index buffers are empty (`with_flags(..).unwrap()`) -/
+theorem append_no_panic' [Geo V N] (dim3 : Bool) {s rhs : Mesh V N} (h1 : WF s) (h2 : WF rhs) :
+    (s.indices = [] ∧ rhs.indices = [] ∧ append dim3 s rhs = none) ∨
+    (∃ s', append dim3 s rhs = some s' ∧ WF s') := by
+  unfold append
+  simp only
+  rcases withFlags_no_panic' (N := N) dim3 _ _ s.flags (appendBuffers_wf h1 h2) with ⟨he, hw⟩ | ⟨hne, s', hw, hwf⟩
+  · left
+    rw [hw]
+    unfold appendBuffers at he
+    simp only [List.append_eq_nil_iff, List.map_eq_nil_iff] at he
+    exact ⟨he.1, he.2, rfl⟩
+  · right; rw [hw]; exact ⟨s', rfl, hwf⟩
+
 end C11
